@@ -529,6 +529,9 @@ func (pe *PolicyEngine) deletePod(p *corev1.Pod) error {
 	}
 
 	delete(pe.podsMap, podName)
+	if podToDelete == nil { // pod is not in the policy-engine: nothing else to update
+		return nil
+	}
 	pe.updatePodOwnersToRepresentativePodMapIfRequired(podToDelete)
 	return nil
 }
